@@ -1,6 +1,9 @@
 import CueVerif.Driver.Proto
 import CueVerif.Spec.Semver
 import CueVerif.Spec.Mvs
+import CueVerif.Model.MvsOps
+import CueVerif.Model.Queue
+import CueVerif.Model.VersionsMax
 namespace CueVerif.Driver.C14
 open CueVerif CueVerif.Driver
 
@@ -51,6 +54,114 @@ def replaySchedule (g : Mvs.Graph) (roots : List Mvs.Node) (order : List Mvs.Nod
                          required := m :: s.required, sel := Mvs.bumpAll s.sel ds } rest
   go (order.length + 1) (Mvs.init roots) order
 
+def showNodes (l : List Mvs.Node) : String :=
+  if l.isEmpty then "-" else ",".intercalate (l.map fun (p, v) => s!"{p}.{v}")
+
+def showOpt : Option (List Mvs.Node) → String
+  | none => "fuel"
+  | some l => showNodes l
+
+def opsFuel (es : List (Mvs.Node × List Mvs.Node)) (extra : Nat) : Nat :=
+  2 * (es.length + (es.foldl (fun a e => a + e.2.length) 0) + extra) + 10
+
+/-- `reqs.Upgrade` of the harness: the highest known version of the path -/
+def latestFn (avail : List Mvs.Node) (m : Mvs.Node) : Mvs.Node :=
+  (m.1, (avail.filter fun a => a.1 == m.1).foldl (fun b a => if b < a.2 then a.2 else b) m.2)
+
+/-- the newer operations of mvs.go (Model/MvsOps.lean) -/
+def handleOps (ws : List String) : String :=
+  match ws with
+  | ["build", target, graph] =>
+    match parseNode target, parseGraph graph with
+    | some t, some es => showOpt (Mvs.buildList (graphFn es) (opsFuel es 0) t)
+    | _, _ => "bad-op"
+  | ["upgrade", target, graph, ups] =>
+    match parseNode target, parseGraph graph, parseNodes ups with
+    | some t, some es, some us =>
+      showOpt (Mvs.buildListUp (Mvs.upgradeGraph (graphFn es) t us) (opsFuel es us.length) t)
+    | _, _, _ => "bad-op"
+  | ["upgradeall", target, graph, avail] =>
+    match parseNode target, parseGraph graph, parseNodes avail with
+    | some t, some es, some av =>
+      showOpt (Mvs.buildListUp (Mvs.upgradeAllGraph (graphFn es) t (latestFn av)) (opsFuel es av.length) t)
+    | _, _, _ => "bad-op"
+  | ["req", target, graph, base] =>
+    match parseNode target, parseGraph graph, natList? base with
+    | some t, some es, some b => showOpt (Mvs.req (graphFn es) (opsFuel es 0) t b)
+    | _, _, _ => "bad-op"
+  | ["downgrade", target, graph, avail, downs] =>
+    match parseNode target, parseGraph graph, parseNodes avail, parseNodes downs with
+    | some t, some es, some av, some ds =>
+      showOpt (Mvs.downgrade (graphFn es) av (opsFuel es (av.length + ds.length)) t ds)
+    | _, _, _, _ => "bad-op"
+  | _ => "bad-op"
+
+/-! par.Queue: validate a recorded event log as a run of the model (Model/Queue.lean).
+Events: `a<i>` Add(i) (logged atomically with the call), `s<i>` / `e<i>` start / end of
+item i's function, `c` a call of Idle(), `I` the idle channel was observed closed. -/
+
+structure QV where
+  st : Queue.St
+  started : List Nat
+  maxRun : Nat
+
+def parseEv (w : String) : Option (Char × Nat) :=
+  match w.toList with
+  | [c] => some (c, 0)
+  | c :: rest => (String.ofList rest).toNat?.map fun n => (c, n)
+  | [] => none
+
+def queueReplay (max : Nat) (evs : List String) : String :=
+  let rec go (evs : List String) (q : QV) : String :=
+    match evs with
+    | [] =>
+      if q.st.panic then "panic"
+      else if !(q.st.backlog.isEmpty && q.st.running.isEmpty) then "unfinished"
+      else s!"ok {q.st.done.length} {q.st.added.length}"
+    | w :: rest =>
+      match parseEv w with
+      | some ('a', i) =>
+        match Queue.apply max q.st (.add i) with
+        | some st => go rest { q with st := st }
+        | none => "bad-add"
+      | some ('s', i) =>
+        if !q.st.running.contains i then s!"start-not-running {i}"
+        else if q.started.contains i then s!"started-twice {i}"
+        else
+          let nrun := (q.started.filter fun j => q.st.running.contains j).length + 1
+          if nrun > max then s!"too-many-running {i}"
+          else go rest { q with started := i :: q.started, maxRun := Nat.max q.maxRun nrun }
+      | some ('e', i) =>
+        if !q.started.contains i then s!"end-before-start {i}"
+        else match Queue.apply max q.st (.fin i) with
+          | some st => go rest { q with st := st }
+          | none => s!"end-not-running {i}"
+      | some ('c', _) =>
+        match Queue.apply max q.st .idle with
+        | some st => go rest { q with st := st }
+        | none => "bad-idle"
+      | some ('I', _) =>
+        if q.st.idle == some true && q.st.active == 0 && q.st.backlog.isEmpty then go rest q
+        else "idle-fired-early"
+      | _ => "bad-event"
+  go evs { st := Queue.init, started := [], maxRun := 0 }
+
+def handleQueue (ws : List String) : String :=
+  match ws with
+  | ["vmax", a, b] =>
+    match unhex a, unhex b with
+    | some x, some y => hex (Semver.versionsMax x y)
+    | _, _ => "bad-op"
+  | ["mvscmp", a, b] =>
+    match unhex a, unhex b with
+    | some x, some y => ordStr (Semver.mvsCmp x y)
+    | _, _ => "bad-op"
+  | ["queue", max, evs] =>
+    match max.toNat? with
+    | some m => queueReplay m (if evs == "-" then [] else evs.splitOn ",")
+    | none => "bad-op"
+  | _ => handleOps ws
+
 def handle (ws : List String) : String :=
   match ws with
   | ["cmp", a, b] =>
@@ -85,6 +196,6 @@ def handle (ws : List String) : String :=
     match parseNodes roots, parseGraph graph, parseNodes order with
     | some rs, some es, some ord => replaySchedule (graphFn es) rs ord
     | _, _, _ => "bad-op"
-  | _ => "bad-op"
+  | _ => handleQueue ws
 
 end CueVerif.Driver.C14
